@@ -135,12 +135,31 @@ def _replay(real, engine, rec, c15):
         ta, tb = real.build(yp, rec["t1"], env), real.build(yp, rec["t2"], env)
         ga = iter(engine.unify(ta, tb))
         gb = iter(engine.unify(real.build(yp, rec["t2"], env), real.build(yp, rec["t1"], env)))
+        # ... and unifications of each variable with a new atom, created now, advanced while ga is at its answer:
+        # they succeed exactly for the variables that answer leaves free, and ending them gives the answer back
+        gz = [iter(engine.unify(vs[i], yp.atom("created_early%d" % i))) for i in range(3)]
+        gz += [iter(engine.unify(yp.atom("created_early%d" % i), vs[i])) for i in range(3)]
         try:
             try:
                 next(ga)
                 ya = True
             except StopIteration:
                 ya = False
+            if ya and rec["y"]:
+                for j, g in enumerate(gz):
+                    i = j % 3
+                    n = 0
+                    for _ in g:
+                        n += 1
+                        break
+                    g.close()
+                    want = 1 if rec["at"][2 + i]["t"] == "v" else 0
+                    if n != want:
+                        return {"kind": "created-before-started-under", "detail": "a unification of variable %d with a new atom, created before and advanced while another unification is at its answer, yielded %d times, specified %d" % (i, n, want),
+                                "expected": rec["at"][2 + i]}
+                    now = real.project_tuple([ta, tb] + vs)
+                    if json.dumps(now, sort_keys=True) != json.dumps(rec["at"], sort_keys=True):
+                        return {"kind": "created-before-started-under", "detail": "ending a unification that was advanced under another one's answer changed that answer", "expected": rec["at"], "observed": now}
             nb = 0
             at = None
             for _ in gb:
@@ -154,6 +173,8 @@ def _replay(real, engine, rec, c15):
             if rec["y"] and json.dumps(at, sort_keys=True) != json.dumps(rec["at"], sort_keys=True):
                 return {"kind": "created-before-started-under", "detail": "unifying terms that are already equal bound something", "expected": rec["at"], "observed": at}
         finally:
+            for g in gz:
+                g.close()
             gb.close()
             ga.close()
         b1 = sorted(i for i, v in enumerate(vs) if v._is_bound)
